@@ -25,10 +25,15 @@ type verifGroup struct {
 	data [][]byte // the d original size-prefixed payloads (what a recovered shard must start with)
 }
 
+// verifHdrOff: bytes the session reserves in front of the FEC header for the cipher (0 without a
+// cipher, 12 for AES-GCM's nonce, 20 for nonce + CRC): the encoder works at that offset
+var verifHdrOff = 0
+
 func verifMakeGroups(d, p int, startNext uint32, groups int) []verifGroup {
-	enc := newFECEncoder(d, p, 0)
+	off := verifHdrOff
+	enc := newFECEncoder(d, p, off)
 	for i := 0; i < d; i++ { // warm-up group (the very first group of an encoder has no "previous packet" time)
-		enc.encode(make([]byte, fecHeaderSizePlus2+1), 1<<30)
+		enc.encode(make([]byte, off+fecHeaderSizePlus2+1), 1<<30)
 	}
 	enc.next = startNext
 	var out []verifGroup
@@ -37,12 +42,20 @@ func verifMakeGroups(d, p int, startNext uint32, groups int) []verifGroup {
 		var grp verifGroup
 		for i := 0; i < d; i++ {
 			size := 1 + (g*13+i*29)%57
-			b := make([]byte, fecHeaderSizePlus2+size)
-			for k := fecHeaderSizePlus2; k < len(b); k++ {
+			b := make([]byte, off+fecHeaderSizePlus2+size)
+			for k := off + fecHeaderSizePlus2; k < len(b); k++ {
 				seed = seed*31 + 7
 				b[k] = seed
 			}
 			ps := enc.encode(b, 1<<30)
+			// independent reading of the header the encoder wrote (README: 16-bit size = payload + 2)
+			if got := int(binary.LittleEndian.Uint16(b[off+fecHeaderSize:])); got != size+2 {
+				panic(fmt.Sprintf("BOUNDED-VIOLATION: (%d,%d) header offset %d: size field of a data packet with %d payload bytes is %d, want %d", d, p, off, size, got, size+2))
+			}
+			if ty := binary.LittleEndian.Uint16(b[off+4:]); ty != typeData {
+				panic(fmt.Sprintf("BOUNDED-VIOLATION: (%d,%d) header offset %d: data packet carries type %#x", d, p, off, ty))
+			}
+			b = b[off:]
 			grp.pkts = append(grp.pkts, append([]byte(nil), b...))
 			grp.data = append(grp.data, append([]byte(nil), b[fecHeaderSize:]...))
 			if i == d-1 {
@@ -50,7 +63,7 @@ func verifMakeGroups(d, p int, startNext uint32, groups int) []verifGroup {
 					panic(fmt.Sprintf("encoder produced %d parity shards, want %d", len(ps), p))
 				}
 				for _, q := range ps {
-					grp.pkts = append(grp.pkts, append([]byte(nil), q...))
+					grp.pkts = append(grp.pkts, append([]byte(nil), q[off:]...))
 				}
 			}
 		}
@@ -81,90 +94,97 @@ func TestVerifBounded(t *testing.T) {
 		cfgs = append(cfgs, [2]int{1, 1}, [2]int{1, 2}, [2]int{3, 1}, [2]int{4, 1}, [2]int{4, 2}, [2]int{5, 1})
 	}
 	runs := 0
-	for _, c := range cfgs {
-		d, p := c[0], c[1]
-		n := d + p
-		paws := 0xffffffff / uint32(n) * uint32(n)
-		// three groups: the last two before the wrap value and the first after it
-		groups := verifMakeGroups(d, p, paws-2*uint32(n), 3)
-		if binary.LittleEndian.Uint32(groups[2].pkts[0]) != 0 {
-			t.Fatalf("BOUNDED-VIOLATION: (%d,%d): sequence id after the wrap value is %d, want 0", d, p, binary.LittleEndian.Uint32(groups[2].pkts[0]))
-		}
-		for gi, grp := range groups {
-			for mask := 1; mask < 1<<n; mask++ {
-				var idx []int
-				for k := 0; k < n; k++ {
-					if mask&(1<<k) != 0 {
-						idx = append(idx, k)
-					}
-				}
-				verifPermute(idx, func(order []int) {
-					for dup := 0; dup < 2; dup++ {
-						runs++
-						dec := newFECDecoder(d, p)
-						// a neighbouring group's packet first, so that the decoder holds another group too
-						other := groups[(gi+1)%3]
-						dec.decode(fecPacket(other.pkts[0]))
-						got := map[int]bool{}
-						emitted := false
-						feed := append([]int(nil), order...)
-						if dup == 1 {
-							feed = append([]int{order[0]}, feed...) // the first packet arrives twice
+	for _, hdrOff := range []int{0, 12, 20} {
+		verifHdrOff = hdrOff
+		for _, c := range cfgs {
+			if hdrOff != 0 && c[0]+c[1] > 4 {
+				continue // the non-zero header offsets with the smallest configurations only
+			}
+			d, p := c[0], c[1]
+			n := d + p
+			paws := 0xffffffff / uint32(n) * uint32(n)
+			// three groups: the last two before the wrap value and the first after it
+			groups := verifMakeGroups(d, p, paws-2*uint32(n), 3)
+			if binary.LittleEndian.Uint32(groups[2].pkts[0]) != 0 {
+				t.Fatalf("BOUNDED-VIOLATION: (%d,%d): sequence id after the wrap value is %d, want 0", d, p, binary.LittleEndian.Uint32(groups[2].pkts[0]))
+			}
+			for gi, grp := range groups {
+				for mask := 1; mask < 1<<n; mask++ {
+					var idx []int
+					for k := 0; k < n; k++ {
+						if mask&(1<<k) != 0 {
+							idx = append(idx, k)
 						}
-						for _, k := range feed {
-							wasNew := !got[k]
-							rec := dec.decode(fecPacket(grp.pkts[k]))
-							got[k] = true
-							// everything emitted is an original data packet of this group, exact length
-							for _, r := range rec {
-								if len(r) < 2 {
-									t.Fatalf("BOUNDED-VIOLATION: (%d,%d) group %d order %v: emitted shard shorter than its size field", d, p, gi, feed)
-								}
-								sz := int(binary.LittleEndian.Uint16(r))
-								okr := false
-								for i := 0; i < d; i++ {
-									if sz == len(grp.data[i]) && sz <= len(r) && bytes.Equal(r[:sz], grp.data[i]) {
-										okr = true
-									}
-								}
-								if !okr {
-									t.Fatalf("BOUNDED-VIOLATION: (%d,%d) group %d order %v: emitted a packet that is not an original data packet of the group (size field %d)", d, p, gi, feed, sz)
-								}
+					}
+					verifPermute(idx, func(order []int) {
+						for dup := 0; dup < 2; dup++ {
+							runs++
+							dec := newFECDecoder(d, p)
+							// a neighbouring group's packet first, so that the decoder holds another group too
+							other := groups[(gi+1)%3]
+							dec.decode(fecPacket(other.pkts[0]))
+							got := map[int]bool{}
+							emitted := false
+							feed := append([]int(nil), order...)
+							if dup == 1 {
+								feed = append([]int{order[0]}, feed...) // the first packet arrives twice
 							}
-							if len(got) < d && len(rec) > 0 {
-								t.Fatalf("BOUNDED-VIOLATION: (%d,%d) group %d order %v: emitted before %d distinct packets had arrived", d, p, gi, feed, d)
-							}
-							if len(got) == d && wasNew && !emitted {
-								emitted = true
-								// exactly the data packets not received so far, each once
-								missing := map[int]bool{}
-								for i := 0; i < d; i++ {
-									if !got[i] {
-										missing[i] = true
+							for _, k := range feed {
+								wasNew := !got[k]
+								rec := dec.decode(fecPacket(grp.pkts[k]))
+								got[k] = true
+								// everything emitted is an original data packet of this group, exact length
+								for _, r := range rec {
+									if len(r) < 2 {
+										t.Fatalf("BOUNDED-VIOLATION: (%d,%d) group %d order %v: emitted shard shorter than its size field", d, p, gi, feed)
 									}
-								}
-								if len(rec) != len(missing) {
-									t.Fatalf("BOUNDED-VIOLATION: (%d,%d) group %d order %v: %d packets reconstructed when %d distinct packets had arrived, want %d", d, p, gi, feed, len(rec), d, len(missing))
-								}
-								for i := range missing {
-									found := false
-									for _, r := range rec {
-										sz := int(binary.LittleEndian.Uint16(r))
-										if sz == len(grp.data[i]) && bytes.Equal(r[:sz], grp.data[i]) {
-											found = true
+									sz := int(binary.LittleEndian.Uint16(r))
+									okr := false
+									for i := 0; i < d; i++ {
+										if sz == len(grp.data[i]) && sz <= len(r) && bytes.Equal(r[:sz], grp.data[i]) {
+											okr = true
 										}
 									}
-									if !found {
-										t.Fatalf("BOUNDED-VIOLATION: (%d,%d) group %d order %v: missing data packet %d was not reconstructed byte for byte", d, p, gi, feed, i)
+									if !okr {
+										t.Fatalf("BOUNDED-VIOLATION: (%d,%d) group %d order %v: emitted a packet that is not an original data packet of the group (size field %d)", d, p, gi, feed, sz)
+									}
+								}
+								if len(got) < d && len(rec) > 0 {
+									t.Fatalf("BOUNDED-VIOLATION: (%d,%d) group %d order %v: emitted before %d distinct packets had arrived", d, p, gi, feed, d)
+								}
+								if len(got) == d && wasNew && !emitted {
+									emitted = true
+									// exactly the data packets not received so far, each once
+									missing := map[int]bool{}
+									for i := 0; i < d; i++ {
+										if !got[i] {
+											missing[i] = true
+										}
+									}
+									if len(rec) != len(missing) {
+										t.Fatalf("BOUNDED-VIOLATION: (%d,%d) group %d order %v: %d packets reconstructed when %d distinct packets had arrived, want %d", d, p, gi, feed, len(rec), d, len(missing))
+									}
+									for i := range missing {
+										found := false
+										for _, r := range rec {
+											sz := int(binary.LittleEndian.Uint16(r))
+											if sz == len(grp.data[i]) && bytes.Equal(r[:sz], grp.data[i]) {
+												found = true
+											}
+										}
+										if !found {
+											t.Fatalf("BOUNDED-VIOLATION: (%d,%d) group %d order %v: missing data packet %d was not reconstructed byte for byte", d, p, gi, feed, i)
+										}
 									}
 								}
 							}
 						}
-					}
-				})
+					})
+				}
 			}
 		}
 	}
+	verifHdrOff = 0
 	// phase 2: one decoder across consecutive groups
 	runs2 := 0
 	for _, c := range cfgs {
@@ -300,5 +320,5 @@ func TestVerifBounded(t *testing.T) {
 			}
 		}
 	}
-	fmt.Printf("BOUNDED-COVERAGE: fec k-of-n: %d configurations, %d fresh-decoder runs (all subsets x orders), %d long-lived-decoder runs (3 consecutive groups, all subset combinations), %d skipped-parity runs (before the wrap value and elsewhere)\n", len(cfgs), runs, runs2, runs3)
+	fmt.Printf("BOUNDED-COVERAGE: fec k-of-n: %d configurations, %d fresh-decoder runs (all subsets x orders; encoder at header offsets 0, 12, 20), %d long-lived-decoder runs (3 consecutive groups, all subset combinations), %d skipped-parity runs (before the wrap value and elsewhere)\n", len(cfgs), runs, runs2, runs3)
 }
